@@ -20,7 +20,10 @@ Representation choices
   number of slots: the 65537th slot cannot be created (`qb_hdb_handle_create` returns -EINVAL).
 * `random()` is a parameter: `create` gets the list of values the successive `random()` calls
   return (calls beyond the list repeat its last element; empty list = 0).
-* not modelled: `malloc` failure, `qb_hdb_destroy`, a NULL destructor, `first_run` lazy creation
+* `malloc` failure in `qb_hdb_handle_create` is the separate operation `createFail` (the harness passes
+  `instance_size = -1`, so `malloc` returns NULL): the slot has been chosen — `ref_count` of a found EMPTY
+  entry incremented, or `handle_count` incremented — when the function returns -ENOMEM without undoing it.
+* not modelled: `qb_hdb_destroy`, a NULL destructor, `first_run` lazy creation
   (the harness always calls `qb_hdb_create` and installs a destructor), concurrency.
 -/
 import QbVerif.Gen.HdbConst
@@ -39,6 +42,7 @@ abbrev MAXELEMS : Nat := HDB_ARRAY_MAX_ELEMENTS
 def EBADF : Int := -(HDB_EBADF : Int)
 def EINVAL : Int := -(HDB_EINVAL : Int)
 def ERANGE : Int := -(HDB_ERANGE : Int)
+def ENOMEM : Int := -(HDB_ENOMEM : Int)
 /-- number of `random()` attempts in qb_hdb_handle_create (`for (i = 0; i < 200; i++)`) -/
 def CHECK_TRIES : Nat := 200
 /-- `qb_array_create(32, …)` in qb_hdb_create_first_run -/
@@ -119,6 +123,8 @@ deriving DecidableEq, Repr
 
 inductive Op where
   | create (draws : List Nat)
+  /-- qb_hdb_handle_create whose `malloc(instance_size)` fails -/
+  | createFail
   | get (h : Nat)
   | getAlways (h : Nat)
   | put (h : Nat)
@@ -190,6 +196,23 @@ def St.create (st : St) (draws : List Nat) : St × Out :=
     let check := drawCheck draws
     ({ st2 with tbl := st2.tbl.set handle ⟨ACTIVE, some inst, check, 1⟩, nextObj := st2.nextObj + 1 },
      .created 0 (mkHandle check handle))
+
+/-- qb_hdb_handle_create when `instance = malloc(instance_size)` returns NULL: the code up to that line
+    has run (slot search with `qb_atomic_int_inc(&entry->ref_count)` on the EMPTY entry found, or
+    `qb_array_grow` + `qb_atomic_int_inc(&hdb->handle_count)`), then
+    `if (instance == 0) { return -ENOMEM; }` — nothing is undone, `*handle_id_out` is not written. -/
+def St.createFail (st : St) : St × Out :=
+  let handle_count := st.handleCount
+  match st.findEmpty 0 handle_count with
+  | some handle =>
+    let e := st.tbl.get handle
+    ({ st with tbl := st.tbl.set handle { e with refCount := e.refCount + 1 } }, .created ENOMEM 0)
+  | none =>
+    let (st1, res) := st.arrayGrow (handle_count + 1)
+    if res ≠ 0 then (st, .created res 0) else
+    let res := st1.arrayIndex handle_count
+    if res ≠ 0 then (st1, .created res 0) else
+    ({ st1 with handleCount := st1.handleCount + 1 }, .created ENOMEM 0)
 
 /-- qb_hdb_handle_get: the slot whose reference count is taken, if the handle is accepted
     ```
@@ -299,6 +322,7 @@ def St.iterNext (st : St) : St × Int × Option Nat × Nat :=
 /-- one API call: new state, outputs (destructor events first, the call's result last) -/
 def St.step (st : St) : Op → St × List Out
   | .create d => let (s, o) := st.create d; (s, [o])
+  | .createFail => let (s, o) := st.createFail; (s, [o])
   | .get h => let (s, rc, inst) := st.get h; (s, [.got rc inst])
   | .getAlways h =>                       -- `return qb_hdb_handle_get(hdb, handle_in, instance);`
     let (s, rc, inst) := st.get h; (s, [.got rc inst])
